@@ -69,6 +69,8 @@ def cexpr(c):
         return "%s ^ %s" % (cpar(c["a"]), cpar(c["b"]))
     if op == "except":
         return "%s EXCEPT %s" % (cpar(c["a"]), cpar(c["b"]))
+    if op == "allexcept":
+        return "ALL EXCEPT %s" % cpar(c["a"])
     raise ValueError(op)
 
 
